@@ -129,6 +129,16 @@ def load_known():
     return json.load(open(KNOWN))
 
 
+def _worker_init():
+    """per-worker address-space limit: a query that explodes must fail in its own process instead of taking the machine down"""
+    try:
+        import resource
+        lim = int(os.environ.get('VERIF_WORKER_GB', '12')) << 30
+        resource.setrlimit(resource.RLIMIT_AS, (lim, lim))
+    except Exception:
+        pass
+
+
 def run_replay_script(path, timeout=600, env=None):
     """Replay scripts exit 1 when the violation reproduces on the real code, 0 when the real
     code behaves correctly, anything else = replay harness problem."""
@@ -171,7 +181,13 @@ def main(mod, argv=None):
     # exist can dead-lock the children
     ctxm = mp.get_context('fork')
     nproc = max(1, min(a.procs, len(items)))
-    pool = ctxm.Pool(nproc) if nproc > 1 else None
+    pool = None
+    if nproc > 1:
+        import concurrent.futures as cf
+        pool = cf.ProcessPoolExecutor(max_workers=nproc, mp_context=ctxm, initializer=_worker_init)
+        # start every worker now (a ProcessPoolExecutor forks lazily, on submit)
+        for f in [pool.submit(time.sleep, 0.3) for _ in range(nproc)]:
+            f.result()
     valerr = None
     try:
         nvalid = mod.validate(tier)
@@ -182,12 +198,19 @@ def main(mod, argv=None):
         nvalid = 0
         valerr = f'{type(e).__name__}: {e}\n{traceback.format_exc()[-1500:]}'
     if pool is not None:
+        import concurrent.futures as cf
+        results = []
+        futs = {pool.submit(_run_item, (mod.__name__, i)): i for i in items}
         try:
-            results = list(pool.imap_unordered(_run_item, [(mod.__name__, i) for i in items], chunksize=1))
+            for f in cf.as_completed(futs):
+                try:
+                    results.append(f.result())
+                except Exception as e:       # BrokenProcessPool: a worker died (memory limit, crash in the solver); never hang, never pass
+                    results.append(dict(item=futs[f], error=f'worker process lost ({type(e).__name__}: {e}); this item was not decided', tb='', wall_s=0.0))
         finally:
-            pool.close()
-            pool.join()
+            pool.shutdown(wait=False, cancel_futures=True)
     else:
+        _worker_init()
         results = [_run_item((mod.__name__, i)) for i in items]
     results.sort(key=lambda r: r['item']['name'])
     errors = [r for r in results if r.get('error')]
